@@ -661,6 +661,8 @@ def step(sink, t, r, op, first=False):
         tail_ws = len(r.s()) - len(r.s().rstrip())
         if not (0 <= removed <= tail_ws):
             raise Failure("rstrip_end", None, f"removed {removed} characters of {r.s()!r}, which ends in {tail_ws} whitespace characters")
+        if res[0] == "ok" and removed != py_rstrip_end_amount(r.s(), op[1]):  # rstrip_end_view: exactly min(trailing whitespace, cell width - size)
+            raise Failure("rstrip_end", None, f"rstrip_end({op[1]}) removed {removed} characters of {r.s()!r}; min(trailing whitespace, cell width - size) is {py_rstrip_end_amount(r.s(), op[1])}")
         r = L.ref_right_crop(r, removed)
         judge_("rstrip_end", t, r, none)
         return t, r
@@ -762,6 +764,280 @@ def explore(ctx, spec, ops):
         ctx.check(False, f.site, inp, what, finding=f.finding)
 
 
+
+# ------------------------------------------------------------------------------------------------ string-level functions (round 4)
+def py_matches(s, sep):
+    """leftmost non-overlapping occurrences, by str.find"""
+    ms, i = [], 0
+    while True:
+        j = s.find(sep, i)
+        if j < 0:
+            return ms
+        ms.append((j, j + len(sep)))
+        i = j + len(sep)
+
+
+def py_str_split(seq, s, sep, incl, blank):
+    """`split` on an ordinary string `s`, applied to the sequence `seq` of the same length (s itself, or its positions).
+    Independent of the Lean model and of rich: str.find for the cut points, cross-checked against str.split / re."""
+    import re
+
+    ms = py_matches(s, sep)
+    assert [m.span() for m in re.finditer(re.escape(sep), s)] == ms
+    if not ms:
+        return [seq]
+    if incl:
+        ends = [e for _, e in ms]
+        ps = [seq[a:b] for a, b in zip([0] + ends, ends + [len(s)])]
+    else:
+        starts = [0] + [e for _, e in ms]
+        stops = [a for a, _ in ms] + [len(s)]
+        ps = [seq[a:b] for a, b in zip(starts, stops)]
+        assert [s[a:b] for a, b in zip(starts, stops)] == s.split(sep)
+    if not blank and len(ps[-1]) == 0:
+        ps.pop()
+    return ps
+
+
+def py_rstrip_end_amount(s, size):
+    from rich.cells import cell_len
+
+    w = len(s) if RSTRIP_END_CHARS else cell_len(s)
+    tail = len(s) - len(s.rstrip())
+    return min(tail, w - size) if w > size else 0
+
+
+def py_even_indents(s):
+    return [n for n in (len(ln) - len(ln.lstrip(" ")) for ln in s.split("\n")) if n % 2 == 0]
+
+
+def string_level(ctx):
+    """correspondence for Model/TextStr.lean (strSplit, rstripEndAmount, evenIndents) against the running Python, and direct
+    evaluation of the round-4 theorems' statements (split_str_view, split_incl_concat, split_join_inverse, rstrip_end_view,
+    detect_indentation_spec) on real rich"""
+    from functools import reduce
+    from math import gcd
+
+    from rich.text import Span, Text
+
+    rng = ctx.rng
+    cases = []
+    for alpha, seps, maxlen in (("ab", ("a", "b", "aa", "ab", "aba", "aab", "bb"), 6), ("a \n", ("\n", " ", "a", "  ", "a ", "\n\n"), 4)):
+        for k in range(0, maxlen + 1):
+            for p in itertools.product(alpha, repeat=k):
+                for sep in seps:
+                    cases.append(("".join(p), sep))
+    n_exh = len(cases)
+    for _ in range(400 if ctx.quick else 20000):
+        alpha = rng.choice(["ab", "a.b", "a \n\t", "あa ", "ab\n"])
+        s = "".join(rng.choice(alpha) for _ in range(rng.randint(0, 14)))
+        sep = "".join(rng.choice(alpha) for _ in range(rng.randint(1, 3)))
+        cases.append((s, sep))
+    for idx, (s, sep) in enumerate(cases):
+        n = len(s)
+        spans = [(0, n, "s1"), (n // 2, n, "s2")] if idx % 2 else [(0, max(n - 1, 0), "s3")]
+        for incl in (False, True):
+            for blank in (False, True):
+                want = py_str_split(s, s, sep, incl, blank)
+                want_ix = py_str_split(list(range(n)), s, sep, incl, blank)
+                ctx.case("text_str_split", [enc_str(sep), "1" if incl else "0", "1" if blank else "0", enc_str(s)],
+                         "%d#" % len(want) + "|".join(enc_str(x) for x in want) + "@" + "|".join(" ".join(map(str, x)) for x in want_ix),
+                         shape=f"sep{len(sep)}:{'incl' if incl else 'excl'}:{'blank' if blank else 'noblank'}:{'exh' if idx < n_exh else 'rnd'}")
+                # the theorems' statements on real rich
+                t = Text(s, style="s5", spans=[Span(*x) for x in spans])
+                full = observe(t)[2]
+                try:
+                    parts = list(t.split(sep, include_separator=incl, allow_blank=blank))
+                    got = [x.plain for x in parts]
+                    streams = [observe(x)[2] for x in parts]
+                    err = None
+                except BaseException as e:  # noqa: BLE001 - an exception here is a failure of the statement
+                    got, streams, err = None, None, type(e).__name__
+                inp = {"initial": f"Text({s!r}, style='s5', spans={spans!r}, overflow=None, tab_size=8)", "operations": [repr(("split", sep, incl, blank, 0))]}
+                ok = err is None and got == want and not isinstance(full, str) and streams == [[full[i] for i in ix] for ix in want_ix]
+                ctx.check(ok, "split_str_view", None if ok else inp,
+                          "" if ok else f"split gave {got!r} (raised {err}), the string-level split gives {want!r}; or a piece's styles are not those of the characters it was cut from",
+                          finding="split-overlapping-separator" if (not ok and L.has_border(sep) and got is not None and len(got) == len(want) - 1) else None)
+                if err is None and incl:
+                    ok = "".join(got) == s
+                    ctx.check(ok, "split_incl_concat", None if ok else inp, "" if ok else f"pieces {got!r} do not concatenate to {s!r}")
+                if err is None and not incl and blank:
+                    ok = sep.join(got) == s
+                    ctx.check(ok, "split_join_inverse", None if ok else inp, "" if ok else f"{sep!r}.join({got!r}) is not {s!r}",
+                              finding="split-overlapping-separator" if (not ok and L.has_border(sep)) else None)
+    ctx.note("str_split_strings", len(cases))
+    # rstrip_end: the amount
+    n_amt = 0
+    for k in range(0, 5):
+        for p in itertools.product(["a", " ", "あ", "\t"], repeat=k):
+            s = "".join(p)
+            for size in range(-1, 2 * k + 2):
+                want = py_rstrip_end_amount(s, size)
+                if not RSTRIP_END_CHARS:
+                    ctx.case("text_rstrip_end_amount", [enc_str(s), str(size)], str(want), shape="wide" if "あ" in s else "narrow")
+                t = Text(s, style="s5", spans=[Span(0, len(s), "s1")])
+                before = observe(t)
+                try:
+                    t.rstrip_end(size)
+                    after, err = observe(t), None
+                except BaseException as e:  # noqa: BLE001
+                    after, err = None, type(e).__name__
+                keep = len(s) - want
+                ok = err is None and after[0] == s[:keep] and after[1] == keep and after[2] == before[2][:keep] and s[keep:].strip() == ""
+                ctx.check(ok, "rstrip_end_view", None if ok else {"initial": f"Text({s!r}, style='s5', spans=[(0, {len(s)}, 's1')], overflow=None, tab_size=8)", "operations": [repr(("rstrip_end", size))]},
+                          "" if ok else f"rstrip_end({size}) of {s!r} shows {after!r} (raised {err}); expected the first {keep} characters with their styles")
+                n_amt += 1
+    ctx.note("rstrip_end_amount_cases", n_amt)
+    # detect_indentation: the even indentations and the gcd clauses
+    ind_alpha = [" ", "a", "\n"]
+    ind_strings = ["".join(p) for k in range(0, 7) for p in itertools.product(ind_alpha, repeat=k)]
+    ind_strings += ["    a\n      b\n c", "  a\n    b\n\n  c", "    a\n        b", "      a\n    b\n", "\u3000\u3000a\n  b", "\ta\n  b", " \xa0 a"]
+    for s in ind_strings:
+        ev = py_even_indents(s)
+        ctx.case("text_even_indents", [enc_str(s)], " ".join(map(str, ev)), shape=f"lines{s.count(chr(10)) + 1}")
+        try:
+            d = Text(s).detect_indentation()
+        except BaseException as e:  # noqa: BLE001
+            d = "raised " + type(e).__name__
+        g = reduce(gcd, ev) if ev else 0
+        ok = isinstance(d, int) and d >= 1 and all(n % d == 0 for n in ev) and (d == g if g else d == 1)
+        ctx.check(ok, "detect_indentation_spec", None if ok else {"initial": f"Text({s!r}, style='', spans=[], overflow=None, tab_size=8)", "operations": [repr(("indent_guides", None, "|", "s3"))]},
+                  "" if ok else f"detect_indentation() of {s!r} is {d!r}; the even indentations are {ev!r}, their gcd {g}")
+    ctx.note("even_indents_strings", len(ind_strings))
+    ctx.flush()
+
+
+# ------------------------------------------------------------------------------------------------ the `_text` fragment list (round 4)
+def enc_frags(frs):
+    return "%d:" % len(frs) + ",".join(enc_str(f) for f in frs)
+
+
+def enc_fop(op):
+    k = op[0]
+    if k in "GY":
+        return k
+    if k == "S":
+        return "S" + enc_str(op[1])
+    if k == "C":
+        return "C" + str(op[1])
+    if k == "A":
+        return "A" + enc_str(op[1]) + "~" + L.enc_opt_style(op[2])
+    if k in "XT":
+        return k + enc_frags(op[1])
+    if k == "J":
+        return "J" + "!".join(enc_frags(f) for f in op[1])
+    return "K%d:" % len(op[1]) + ",".join(enc_str(c) + "~" + L.enc_opt_style(st) for c, st in op[1])
+
+
+def apply_fop(t, op, read_first=False):
+    """one fragment operation on the real text; returns the text to go on with"""
+    from rich.text import Text
+
+    if read_first:
+        t.plain  # noqa: B018 - the getter normalises `_text`; the theorem says nobody can tell
+    k = op[0]
+    if k == "G":
+        t.plain  # noqa: B018
+    elif k == "S":
+        t.plain = op[1]
+    elif k == "A":
+        t.append(op[1], op[2])
+    elif k in "XT":
+        u = Text(op[1][0])
+        for f in op[1][1:]:
+            u.append(f)
+        t.append_text(u) if k == "X" else t.append(u)
+    elif k == "K":
+        t.append_tokens(op[1])
+    elif k == "C":
+        t.right_crop(op[1])
+    elif k == "Y":
+        t = t.copy()
+    elif k == "J":
+        lines = []
+        for frs in op[1]:
+            u = Text(frs[0])
+            for f in frs[1:]:
+                u.append(f)
+            lines.append(u)
+        t = t.join(lines)
+    return t
+
+
+def ref_fop(s, op):
+    """the same operation on an ordinary string"""
+    k = op[0]
+    if k == "S":
+        return op[1]
+    if k == "A":
+        return s + L.strip_ctl(op[1])
+    if k in "XT":
+        return s + "".join(op[1])
+    if k == "K":
+        return s + "".join(c for c, _ in op[1])
+    if k == "C":
+        return s[: max(0, len(s) - op[1])]
+    if k == "Y":
+        return L.strip_ctl(s)
+    if k == "J":
+        return s.join("".join(frs) for frs in op[1])
+    return s
+
+
+def frag_histories(ctx):
+    """Model/TextFrag.lean against rich's `_text` list after every operation, and the two theorems' statements on real rich:
+    frag_refines_history ("".join(_text) is the string the same operations give on an ordinary string) and
+    plain_normalisation_unobservable (reading `plain` before every operation changes nothing that can be observed)"""
+    from rich.text import Text
+
+    if not isinstance(getattr(Text("a"), "_text", None), list):
+        ctx.note("frag:_text-not-observable")  # a refactor removed the fragment list: nothing to compare (the abstract model still is)
+        return
+    rng = ctx.rng
+    kinds = [("G",), ("S", "x"), ("S", "ab"), ("A", "b", None), ("A", "", "s1"), ("A", "\r", None), ("A", "b\x08c", "s1"),
+             ("X", ["d", "e"]), ("X", [""]), ("T", [""]), ("T", ["d"]), ("K", [("c", None), ("", "s2")]), ("K", []),
+             ("C", 0), ("C", 1), ("C", 9), ("Y",), ("J", []), ("J", [["d", "e"]]), ("J", [["d", "e"], [""], ["f"]])]
+    hists = [(init, list(p)) for init in ("", "a\rb") for k in (1, 2) for p in itertools.product(kinds, repeat=k)]
+    n_exh = len(hists)
+    for _ in range(600 if ctx.quick else 30000):
+        ops = []
+        for _i in range(rng.randint(3, 10)):
+            op = rng.choice(kinds)
+            if op[0] in "SA" and rng.random() < 0.5:
+                op = (op[0], gen_string(rng, 3, ctl=op[0] == "A")) + op[2:]
+            if op[0] == "C":
+                op = ("C", rng.randint(0, 4))
+            if op[0] == "K" and rng.random() < 0.5:
+                op = ("K", [(gen_string(rng, 2, ctl=False), rng.choice([None, "s1"])) for _j in range(rng.randint(0, 3))])
+            ops.append(op)
+        hists.append((gen_string(rng, 4), ops))
+    for idx, (init, ops) in enumerate(hists):
+        inp = {"initial": f"Text({init!r})", "operations": [repr(o) for o in ops]}
+        try:
+            t, t2, s = Text(init), Text(init), L.strip_ctl(init)
+            trace, ok_ref = [], True
+            for op in ops:
+                ctx.note("fop:" + op[0])
+                t = apply_fop(t, op)
+                t2 = apply_fop(t2, op, read_first=True)
+                s = ref_fop(s, op)
+                trace.append(list(t._text))
+                ok_ref = ok_ref and "".join(t._text) == s and "".join(t2._text) == s
+            same = observe(t) == observe(t2) and t.plain == s and len(t) == len(s)
+            err = None
+        except BaseException as e:  # noqa: BLE001
+            trace, ok_ref, same, err = None, False, False, type(e).__name__
+        if trace is not None:
+            ctx.case("text_frag_run", [enc_str(init), "|".join(enc_fop(o) for o in ops)], ";".join(enc_frags(f) for f in trace),
+                     shape=("exh" if idx < n_exh else "rnd") + ":len%d" % min(len(ops), 6))
+        ctx.check(ok_ref, "frag_refines_history", None if ok_ref else inp,
+                  "" if ok_ref else f"the joined fragments are not the string the same operations give on an ordinary string (raised {err})")
+        ctx.check(same, "plain_normalisation_unobservable", None if same else inp,
+                  "" if same else f"reading .plain before every operation changed what the text shows (raised {err})")
+    ctx.note("frag_histories", len(hists))
+    ctx.flush()
+
+
 # ------------------------------------------------------------------------------------------------ the run
 def run(ctx):
     rng = ctx.rng
@@ -825,6 +1101,10 @@ def run(ctx):
     ctx.note("systematic_single_ops", n_sys)
     ctx.flush()
 
+    # 1b. the string-level functions the round-4 theorems are stated with, and those theorems' statements on real rich
+    string_level(ctx)
+    frag_histories(ctx)
+
     # 2. malformed constructor spans / unsorted divide offsets: correspondence only (outside the property's domain)
     from rich.text import Span, Text
 
@@ -874,7 +1154,12 @@ def run(ctx):
         "1) single operations, bounded-exhaustive: %d small initial texts (strings %r x 4 span sets incl. duplicated spans x 2 base styles) x every "
         "argument inside/at/beyond both ends (indices -n-2..n+2, counts 0..n+2, every sorted offset tuple of <= 3); 2) %d malformed span / offset cases "
         "(model-vs-code only); 3) %d seeded random histories of 1..12 operations over 31 operation kinds, each step compared model-vs-code (state + "
-        "rendering) and against the reference styled string; distinct = distinct canonical requests" % (len(small_strings) * 8, small_strings, n_mal, n_hist)
+        "rendering) and against the reference styled string; 4) round 4: strSplit / rstripEndAmount / evenIndents against the running Python (every string "
+        "of <= 6 over {a,b} x 7 separators incl. self-overlapping ones, every string of <= 4 over {a, space, newline} x 6 separators, both flags both ways, "
+        "+ seeded random; every string of <= 4 over {a, space, wide, tab} x sizes -1..2n+1; every string of <= 6 over {space, a, newline}) with the "
+        "theorems' statements evaluated on real rich for each, and `_text` fragment histories (every sequence of <= 2 of 20 fragment operations on 2 "
+        "initial texts + seeded random of 3..10) compared list by list with Model/TextFrag and run twice on real rich (with / without reading .plain "
+        "before every operation); distinct = distinct canonical requests" % (len(small_strings) * 8, small_strings, n_mal, n_hist)
     )
 
 
@@ -905,7 +1190,7 @@ def replay(ctx, case):
 
 
 MANIFEST = {
-    "text": "Lean 4 theorems (Props/C05.lean, 48 obligations, none partial; no bound on string length, number of spans or number of "
+    "text": "Lean 4 theorems (Props/C05.lean, 65 obligations, none partial; no bound on string length, number of spans or number of "
     "operations) about a statement-by-statement model of rich/text.py (Model/Text.lean: Span, Text with the separately stored _length, every "
     "mutator, divide, split, slices incl. step, expand_tabs, render's event sort + style-id stack, remove_suffix, fit, __add__, "
     "detect_indentation, with_indent_guides) and of control.strip_control_codes (table re-translated from rich/control.py every run). "
@@ -927,7 +1212,30 @@ MANIFEST = {
     "(bounded-exhaustive single operations with arguments inside, at and beyond both ends + all strings <= 4 over the indentation alphabet + "
     "seeded random histories of 1..12 operations over 31 operation kinds, shrunk on failure); every earlier object of a history (receivers, "
     "operands, sibling pieces) is re-observed after every later step and operations documented to return a new Text must not return their "
-    "receiver, so aliasing is visible.",
+    "receiver, so aliasing is visible. "
+    "Deepening round 4: (4) split is the string-level split of the styled string (split_str_view over the executable strSplit of "
+    "Model/TextStr.lean, any non-empty separator, both flags both ways) with the string laws split_incl_concat (include_separator=True loses "
+    "and moves nothing) and split_join_inverse (sep.join(split(sep, allow_blank=True)) is the text); (5) refinement theorems for the "
+    "operations that were only compared before: pad_view, remove_suffix_view, add_view (+ str, + Text), append_tokens_view, rstrip_end_view "
+    "(exactly min(trailing whitespace, cell width - size) trailing characters go, all of them whitespace), fit_view (lines of the string-level "
+    "split cut/padded to exactly w), detect_indentation_spec (the gcd of the even space indentations, >= 1), with_indent_guides_view (FULL "
+    "strength: the styled string is the list function guideLines of the lines of the tab-expanded text - guide every `size` columns with the "
+    "guide style on top of what the positions carried, blank lines take the NEXT non-blank line's indentation in the bare guide style, "
+    "trailing blank lines empty - joined by newlines under the null style); (6) inv_history_full / history_render_full: the invariant and "
+    "'render() = view' after EVERY history over the complete operation set OpAll = OpX + split(any separator, both flags) + fit + pad + "
+    "append_tokens + rstrip_end + with_indent_guides; (7) the _text fragment list is modelled as the code keeps it (Model/TextFrag.lean: "
+    "plain getter = join + reset to one fragment, setter, append(str), append(Text), append_text, append_tokens, right_crop, copy, join "
+    "which copies the operands' fragments un-normalised) and proved to refine the concatenation model operation by operation and history "
+    "by history (frag_refines_step / frag_refines_history), the getter's normalisation being unobservable "
+    "(plain_normalisation_unobservable). New tie (37 driver entry points): text_str_split (8,060 quick requests: every string <= 6 over "
+    "{a,b} x 7 separators incl. aa, aba, aab; every string <= 4 over {a, space, newline} x 6 separators; 4 flag combinations; + 400 seeded "
+    "random; answer = pieces AND the positions each piece was cut from, oracle str.find cross-checked against str.split and re.finditer), "
+    "text_rstrip_end_amount (3,527: every string <= 4 over {a, space, wide, tab} x sizes -1..2n+1), text_even_indents (1,100: every string "
+    "<= 6 over {space, a, newline}), text_frag_run (1,440 histories: every sequence of <= 2 of 20 fragment operations on 2 initial texts + "
+    "600 seeded random of 3..10; rich's _text list after every operation); the statements of split_str_view, split_incl_concat, "
+    "split_join_inverse, rstrip_end_view, detect_indentation_spec, frag_refines_history and plain_normalisation_unobservable are evaluated "
+    "on real rich for each of these inputs (the last by running every history twice, with and without reading .plain before every "
+    "operation), and the history step of rstrip_end now also checks the exact amount.",
     "note": "Variant flags, all 0 (= repaired = what /repo contains now): CTOR_LEN, CROP_ENDS, STYLIZE_NEG, GETITEM, DIVIDE_ORDER, ALIGN_NEG "
     "(the six fields of Variant), RSTRIP_END_CHARS (fix f5f2be9), SPLIT_ENDSWITH (fix b61fef8); known_findings.txt has no `known:` line for "
     "C05, so the check prints no KNOWN-FINDING line. "
@@ -935,12 +1243,18 @@ MANIFEST = {
     "rich 9.10.0 as found (before that fix; SPLIT_ENDSWITH = 1) is the same function for every separator that does not overlap itself (all "
     "that rich itself uses); for a self-overlapping separator the code as found lost characters (old_split_overlapping_separator, finding "
     "split-overlapping-separator, fixed). "
-    "fit, with_indent_guides and detect_indentation are modelled and compared (model-vs-code and against an independent oracle), they have no "
-    "theorem. divide_view is proved in Lemmas/WrapDivide.lean (built by property C02 on this model) and imported, as are two helper lemmas "
-    "about one-character separators. rstrip_end's amount (RSTRIP_END_CHARS / Text.rstripEndW) is pinned by model-vs-code only. "
+    "fit, with_indent_guides and detect_indentation have refinement theorems since round 4 (fit_view, with_indent_guides_view, "
+    "detect_indentation_spec); fit_view / with_indent_guides_view go through Text.split as found, which split_released_eq_repaired makes the "
+    "repaired split for the one-character separator they use. divide_view is proved in Lemmas/WrapDivide.lean (built by property C02 on this model) and imported, as are two helper lemmas "
+    "about one-character separators. rstrip_end's amount is a theorem for the repaired code (rstrip_end_view, Text.rstripEndW false; "
+    "rstripEndAmount is executable and compared with the running Python); for RSTRIP_END_CHARS = 1 only model-vs-code pins it. "
+    "Remaining partial: step_total (no operation raises inside its domain) is stated for the base set Op only; the fragment model covers "
+    "the operations that touch _text directly (expand_tabs and truncate(pad=True), which assign a one-element list, go through the abstract "
+    "model only; an operand text is given by its fragment list and is not re-observed after append(Text) normalised it); comparing _text "
+    "reaches into a private attribute: the generator is skipped (note frag:_text-not-observable) if it is not a list. "
     "Trusted: Lean kernel; axioms propext/Classical.choice/Quot.sound; translator harness/gen/text_tables.py (STRIP_CONTROL_CODES, and "
     "the running CPython's str.isspace set, cross-checked against regex \\s and str.rstrip); the correspondence harness; "
-    "_text fragments are abstracted to their concatenation; styles are opaque names and 'same effective style' in the direct evaluation is "
+    "_text fragments are abstracted to their concatenation in Model/Text.lean, the abstraction being justified by frag_refines_history; styles are opaque names and 'same effective style' in the direct evaluation is "
     "judged in the free right-regular band over names ('' identity, s+s=s, x+y+x=y+x) - the Lean theorems use the stronger free monoid "
     "(exact ordered lists); cell widths are rich.cells' (C13); regex highlighters are span sources (their spans are checked to be non-empty "
     "and inside the text, then given to the model). "
